@@ -1,4 +1,5 @@
 import HexVerif.Lemmas.TbIsa
+import HexVerif.Lemmas.TbLoadFile
 import HexVerif.Properties.C13
 /-
   C06 — a binary behaves identically on the RTL testbench and on the simulator.
@@ -76,5 +77,39 @@ theorem C06_images_agree (ws : List Word) (h : ws.length ≤ memWords) (m : BitV
   cases hw : ws[i]? with
   | none => simp [List.getElem?_eq_none_iff] at hw; omega
   | some w => rfl
+
+/-- **C06 for the files the assembler writes.**  Both tools are given the SAME file
+    `Asm.fileBytes img` (what `hexasm` / `xcmp` emit: length word, image, debug tables): hexsim's
+    `load()` (model `Sim.load`, any indeterminate constructor members `j`) and hextb's `load()`
+    (everything after the length word copied over an arbitrary power-on memory `m`).  The
+    hypotheses of `C06` about the two start states are discharged by the loader round trip
+    (`Sim.loadParts_fileBytes`) and `Tb.loaders_agree`; what remains are the property's own side
+    conditions on the program's run (defined, in range, reads only image words or words it wrote). -/
+theorem C06_on_file (img : Asm.Image) (j : Sim.Junk) (io : IOSt) (r₀ : RtlSt) (m : BitVec 19 → Word) (n : Nat) (out : Outcome)
+    (hsz : img.sizeBytes = img.bytes.length) (h4 : img.bytes.length % 4 = 0) (hfit : img.bytes.length ≤ 4 * memWords)
+    (hd : img.debug.length < 2 ^ 31) (hnul : ∀ e ∈ img.debug, (0 : Byte) ∉ Sim.nameBytes e.1)
+    (hmem : r₀.mem = loadMem m (tbWords (Asm.fileBytes img)))
+    (hrun : isaRun n { pc := 0#32, a := 0#32, b := 0#32, o := 0#32, mem := absMem r₀.mem } io = some out)
+    (hro : ReadsOnly (fun i => i < img.bytes.length / 4 ∧ i < memWords) n
+             { pc := 0#32, a := 0#32, b := 0#32, o := 0#32, mem := Mem.zero.loadWords (wordsOfBytes img.bytes) } io) :
+    ∃ p, Sim.load (Sim.Proc.mk' j io 0) (Asm.fileBytes img) = some p ∧
+      obs (steps (10 + 2 * n) (start r₀ io)) = obsSimPair (Sim.obsSim (Sim.run n p)) := by
+  have hl := Sim.loadParts_fileBytes Mem.zero img hsz h4 hfit hd hnul
+  have hload : Sim.load (Sim.Proc.mk' j io 0) (Asm.fileBytes img) =
+      some { Sim.Proc.mk' j io 0 with memory := Mem.zero.loadWords (wordsOfBytes img.bytes),
+                                       debugInfo := [] ++ Sim.loadedSymbols img.debug } := by
+    unfold Sim.load
+    show (match Sim.loadParts Mem.zero (Asm.fileBytes img) with
+          | some (mm, tbl) => some { Sim.Proc.mk' j io 0 with memory := mm, debugInfo := (Sim.Proc.mk' j io 0).debugInfo ++ tbl }
+          | none => none) = _
+    rw [hl]
+    rfl
+  refine ⟨_, hload, ?_⟩
+  obtain ⟨s1, s2, s3, s4, s5⟩ := C06_sim_start j io _ _ hload
+  refine C06 _ r₀ io n (img.bytes.length / 4) out s1 s2 s3 s4 s5 ?_ hrun hro
+  intro i hi _
+  rw [hmem]
+  exact loaders_agree img h4 hfit m i hi
+
 
 end Hex.Properties.C06
